@@ -82,6 +82,8 @@ func main() {
 		h.GenTrip(rng, thorough, emit)
 	case "tripw":
 		h.GenTripW(rng, thorough, emit)
+	case "wtmo":
+		h.GenWtmo(rng, thorough, emit)
 	case "life":
 		h.GenLife(rng, thorough, emit)
 	case "lmtp":
